@@ -399,8 +399,24 @@ func (m *VM) step(i int, op *Op) *Rec {
 			var tok *biscuit.Biscuit
 			var err error
 			if len(bl.Base) > 0 {
-				st := datalog.SymbolTable(append([]string{}, bl.Base...))
-				tok, err = (&biscuit.Unmarshaler{Symbols: &st}).Unmarshal(buf)
+				// a receiver keeps ONE Unmarshaler (and one table) per agreed base for all the tokens
+				// it decodes; the table is the caller's and must come back unchanged
+				key := "unmarshaler:" + strings.Join(bl.Base, "\x00")
+				u, _ := m.Ext[key].(*biscuit.Unmarshaler)
+				if u == nil {
+					st := datalog.SymbolTable(append([]string{}, bl.Base...))
+					u = &biscuit.Unmarshaler{Symbols: &st}
+					m.Ext[key] = u
+				} else {
+					m.Probe("unmarshaler_reused")
+				}
+				tok, err = u.Unmarshal(buf)
+				if got := []string(*u.Symbols); strings.Join(got, "\x00") != strings.Join(bl.Base, "\x00") {
+					m.Violate(m.Plan.Property, "caller-symbol-table-modified", "Unmarshal changed the symbol table of the caller's Unmarshaler",
+						fmt.Sprintf("base %q became %q", bl.Base, got))
+					st := datalog.SymbolTable(append([]string{}, bl.Base...))
+					u.Symbols = &st
+				}
 			} else {
 				tok, err = biscuit.Unmarshal(buf)
 			}
